@@ -5,9 +5,11 @@ import (
 	"fmt"
 	"math/big"
 	"reflect"
+	"runtime"
 	"runtime/debug"
 	"strings"
 	"sync"
+	"time"
 
 	"github.com/gcash/bchd/bchec"
 	"github.com/gcash/bchd/chaincfg"
@@ -163,6 +165,26 @@ type c15hist struct {
 	log    []string
 	broken bool
 	nontrv bool
+	// arena: one caller-owned buffer from which NewExtendedKey arguments are
+	// carved back to back WITHOUT limiting their capacity (a key store that
+	// keeps its records in one allocation)
+	arena    []byte
+	arenaOff int
+}
+
+// carve returns a copy of b placed in the shared arena; the returned slice's
+// spare capacity extends over the records stored after it.
+func (h *c15hist) carve(b []byte) []byte {
+	if h.arena == nil {
+		h.arena = make([]byte, 8192)
+	}
+	if h.arenaOff+len(b) > len(h.arena) {
+		return append([]byte(nil), b...)
+	}
+	out := h.arena[h.arenaOff : h.arenaOff+len(b)]
+	copy(out, b)
+	h.arenaOff += len(b)
+	return out
 }
 
 type c15grave struct {
@@ -554,6 +576,11 @@ func (h *c15hist) opNewExtendedKey() {
 	}
 	chain := append([]byte(nil), x.ChainCode[:]...)
 	fp := append([]byte(nil), x.ParentFP[:]...)
+	if r.Bool() {
+		// arguments are adjacent records of one caller buffer
+		key, chain, fp = h.carve(key), h.carve(chain), h.carve(fp)
+		c.Inc("op_NewExtendedKey_arguments_carved_from_one_buffer")
+	}
 	how := fmt.Sprintf("NewExtendedKey(ver=%x key=%x cc=%x fp=%x depth=%d num=%d priv=%v)", version, key, chain, fp, x.Depth, x.ChildNum, x.IsPrivate())
 	h.note("NewExtendedKey(ver=%x depth=%d priv=%v)", version, x.Depth, x.IsPrivate())
 	var k *hdkeychain.ExtendedKey
@@ -577,6 +604,23 @@ func (h *c15hist) opNewExtendedKey() {
 	c.Inc("op_NewExtendedKey")
 	h.observeNew("NewExtendedKey", e)
 	h.observeAll("NewExtendedKey", nil)
+	if r.Chance(1, 12) && !h.broken {
+		// a second, short-lived key object over the SAME argument slices is
+		// created, used and dropped without Zero; after garbage collection
+		// (and any finalizers) nothing has been zeroed, so every live key -
+		// in particular the one sharing those slices - must be unchanged
+		func() {
+			defer func() { recover() }()
+			t := hdkeychain.NewExtendedKey(version, key, chain, fp, x.Depth, x.ChildNum, x.IsPrivate())
+			_ = t.String()
+		}()
+		runtime.GC()
+		runtime.GC()
+		time.Sleep(2 * time.Millisecond)
+		h.note("(a second key object over the same argument slices was dropped; GC ran)")
+		c.Inc("op_dropped_twin_then_GC")
+		h.observeAll("dropped-twin-GC", nil)
+	}
 }
 
 func (h *c15hist) opChild(x *c15key) {
